@@ -35,6 +35,7 @@ class Prog:
     cd_extra: bytes = b""  # concrete trailing calldata bytes
     loop_bound: int | None = None
     ref_paths: int = 64
+    known_preimages: tuple = ()  # byte strings whose keccak appears as a constant in the code (A2 instances)
     script: object = None  # fault script for the branching solver (C02)
     script_name: str = ""
 
@@ -139,7 +140,8 @@ def run_ref(p: Prog, inp: Inputs, oracle=None, solver_timeout_ms=1000):
     for a, v in inp.balance_items():
         bal = z3.Store(bal, a, v)
     ends = ev.run_tx(accounts, bal, p.target, z3.ZeroExt(96, inp.sender), z3.ZeroExt(96, inp.origin),
-                     inp.value, inp.calldata_bytes(), static=p.static, env={"address_oracle": oracle or []})
+                     inp.value, inp.calldata_bytes(), static=p.static,
+                     env={"address_oracle": oracle or [], "known_preimages": tuple(p.known_preimages)})
     return ev, ends
 
 
